@@ -35,7 +35,10 @@ CLAIMS = {
        "lattice; TLC checks NoEmittingCellSkipped for all single L-infinity boxes and LCG-drawn two-box and diagonal-plane "
        "scenes (gradient 0.99: the tight case of the half-diagonal test). Every scene is rendered by the real octree and "
        "quadtree renderers for f and for f/1024 (nothing prunable); OctTrace/QuadTrace judge hierarchical = exhaustive output "
-       "= flat-scan model, and compare the hook-recorded isEmpty decisions with the model traversal (drift only).",
+       "= flat-scan model, and compare the hook-recorded isEmpty decisions with the model traversal (drift only). Real shapes "
+       "(tangency scenes, thousands of discs at 1000 cells, features thinner than a cell on diagonal lattice points, surfaces "
+       "clipping a lattice point by 1e-12 .. 1e-7 of a cell) are additionally compared with a full-lattice reference built in the "
+       "harness from the real per-cell routines (every finest cell, field values untouched); HierTrace.tla judges.",
   design_ref="DESIGN.md section 6 C07", technique="TLC model checking of the traversal + replay into the real renderers + TLC trace validation (metamorphic and model-based)",
   note=TB + " Scenes are 1-Lipschitz by construction; 'all shapes' is the stated lattice families."),
  "C11": dict(
